@@ -127,7 +127,9 @@ def validateDataType (m : Metadata) : DataType → R Unit
   | .map entry _ => do
     noStrategy m
     match entry with
-    | .mk _ (.struct (.cons kf (.cons vf .nil))) _ _ => do validateField kf; validateField vf
+    -- `validate_struct_field(entry, entry_fields)`: the entries field is validated as the struct field it is (its
+    -- strategy must be one a struct admits, then the key and the value field)
+    | .mk _ (.struct (.cons _ (.cons _ .nil))) _ _ => validateField entry
     | _ => fail "Invalid child data type for map, expected struct with 2 fields"
   | .list f => do noStrategy m; validateField f
   | .largeList f => do noStrategy m; validateField f
@@ -149,6 +151,62 @@ def validateFields : Fields → R Unit
 def validateUFields : UFields → R Unit
   | .nil => pure ()
   | .cons _ f r => do validateField f; validateUFields r
+end
+
+/-! ### pinned: `validate_map_field` before `fix: validate_map_field validates the entries field itself`
+
+The same functions with the `Map` arm as it was: the key and the value field inside the entries struct are validated,
+the entries field itself (its strategy) is not. -/
+
+mutual
+def validateFieldPinned : Field → R Unit
+  | .mk _ dt _ m => validateDataTypePinned m dt
+def validateDataTypePinned (m : Metadata) : DataType → R Unit
+  | .null => do
+    match (← getStrategyFromMetadata m) with
+    | none | some .inconsistentTypes | some .unknownVariant => pure ()
+    | some _ => fail "invalid strategy for Null field"
+  | .fixedSizeBinary n => if n < 0 then fail "Invalid FixedSizedBinary with negative number of elements" else noStrategy m
+  | .time32 u => do
+    noStrategy m
+    match u with
+    | .second | .millisecond => pure ()
+    | _ => fail "Time32 field must have Second or Millisecond unit"
+  | .time64 u => do
+    noStrategy m
+    match u with
+    | .microsecond | .nanosecond => pure ()
+    | _ => fail "Time64 field must have Microsecond or Nanosecond unit"
+  | .struct fs => do
+    match (← getStrategyFromMetadata m) with
+    | none | some .mapAsStruct | some .tupleAsStruct => pure ()
+    | some _ => fail "invalid strategy for Struct field"
+    validateFieldsPinned fs
+  | .map entry _ => do
+    noStrategy m
+    match entry with
+    | .mk _ (.struct (.cons kf (.cons vf .nil))) _ _ => do validateFieldPinned kf; validateFieldPinned vf
+    | _ => fail "Invalid child data type for map, expected struct with 2 fields"
+  | .list f => do noStrategy m; validateFieldPinned f
+  | .largeList f => do noStrategy m; validateFieldPinned f
+  | .fixedSizeList f n =>
+    if n < 0 then fail "Invalid FixedSizeList with negative number of elements"
+    else do noStrategy m; validateFieldPinned f
+  | .union us _ => do noStrategy m; validateUFieldsPinned us
+  | .dictionary k v => do
+    noStrategy m
+    if !isIntType k then fail "invalid child for Dictionary. Expected integer keys"
+    else if !isDictValueType v then fail "invalid child for Dictionary. Expected string values"
+    else pure ()
+  | .interval _ => fail "Unsupported data type"
+  | .runEndEncoded _ _ => fail "Unsupported data type"
+  | _ => noStrategy m
+def validateFieldsPinned : Fields → R Unit
+  | .nil => pure ()
+  | .cons f r => do validateFieldPinned f; validateFieldsPinned r
+def validateUFieldsPinned : UFields → R Unit
+  | .nil => pure ()
+  | .cons _ f r => do validateFieldPinned f; validateUFieldsPinned r
 end
 
 /-! ## metadata as a HashMap -/
@@ -363,6 +421,13 @@ def acceptForeign : Field → R Field
   | .mk name dt nullable m => do
     let field := Field.mk name dt (normNullable dt nullable) m
     validateField field
+    pure field
+
+/-- `acceptForeign` with the pinned `validate_field` -/
+def acceptForeignPinned : Field → R Field
+  | .mk name dt nullable m => do
+    let field := Field.mk name dt (normNullable dt nullable) m
+    validateFieldPinned field
     pure field
 
 def acceptForeignList : List Field → R (List Field)
